@@ -41,7 +41,7 @@ func gen(tier string, rng *h.Rng, emit func(string)) {
 	r := bnref.Rn
 	rm1 := new(big.Int).Sub(r, big.NewInt(1))
 	sks := []*big.Int{big.NewInt(0), big.NewInt(1), rm1, big.NewInt(2)}
-	for i := 0; i < pick(12, 40); i++ {
+	for i := 0; i < pick(8, 40); i++ {
 		sks = append(sks, rng.Big(r))
 	}
 	// messages: descriptor strings
